@@ -209,10 +209,10 @@ def configs_for(kind, param):
     raise KeyError(kind)
 
 
-def run_probe(pname, word, cfgname, extra_code=b''):
+def run_probe(pname, word, cfgname, extra_code=b'', code_override=None):
     code, kind, param = PROBES[pname]
     cfg = dict(configs_for(kind, param))[cfgname]
-    full = nest(tuple(word), extra_code + code)
+    full = nest(tuple(word), (extra_code + code) if code_override is None else code_override)
     counts = {'sig': 0, 'ct': 0}
 
     def sigplug(tape, stack, cache):
@@ -344,32 +344,47 @@ def judge(pname, word, cfgname, _attr=True):
     return fails
 
 
-def judge_flagop(opname, k, word):
-    """SET_FLAG / UNSET_FLAG k must change exactly integer flag k (observed through the flag probes)."""
+PERSIST = ['LOOP', 'DEFCALL', 'IF', 'TRY', 'EVAL']
+PLACEMENTS = [('direct', None)] + [('persist', x) for x in PERSIST] + [('inherit', y) for y in CTX]
+_IDLE = op('OP_TRUE') + op('OP_POP0')
+
+
+def judge_flagop(opname, k, word, placement=('direct', None)):
+    """SET_FLAG / UNSET_FLAG k must change exactly integer flag k (observed through the flag probes), and nothing but
+    a flag instruction changes it afterwards: the new state survives constructs that follow at the same level
+    (persist) and is the state seen inside bodies entered afterwards (inherit)."""
     fails = []
     flagop = bytes([C[opname], 1, k])
-    probes = {0: 'flag0', 1: 'flag1', 2: 'flag2', 3: 'flag3', 4: 'flag4', 5: 'flag5', 6: 'flag6', 7: 'flag7', 8: 'flag8', 9: 'flag9-sign'}
-    for j, pname in probes.items():
-        cfgname = 'off' if opname == 'OP_SET_FLAG' else 'default'
-        r = run_probe(pname, word, cfgname if j == k else ('default' if opname == 'OP_SET_FLAG' else 'default'), extra_code=flagop) \
-            if j == k else None
-        if j != k:
-            continue
-        key = FLAGKEYS[j]
-        if r['err'] is not None:
-            fails.append(('flag-instruction/%s-raises-for-an-integer-flag' % opname[3:], 'flag %d in %r: %s' % (k, word, r['err'])))
-            continue
-        present = key in r['cache']
-        if opname == 'OP_SET_FLAG' and not present:
-            fails.append(('flag-instruction/SET_FLAG-does-not-set-the-integer-flag', 'flag %d in %r' % (k, word)))
-        if opname == 'OP_UNSET_FLAG' and present:
-            fails.append(('flag-instruction/UNSET_FLAG-does-not-unset-the-integer-flag', 'flag %d in %r' % (k, word)))
-    # other flags untouched: a neighbour probe keeps its behaviour
-    other = (k + 1) % 10
-    pname = probes[other]
-    r = run_probe(pname, word, 'off', extra_code=flagop)
-    if r['err'] is None and FLAGKEYS[other] in r['cache']:
-        fails.append(('flag-instruction/%s-changes-another-flag' % opname[3:], 'op on %d re-enabled %d' % (k, other)))
+    probes = {0: 'flag0', 1: 'flag1', 2: 'flag2', 3: 'flag3', 4: 'flag4', 5: 'flag5', 6: 'flag6', 7: 'flag7', 8: 'flag8', 9: 'flag9-sign',
+              10: 'flag10'}
+    how, arg = placement
+    pname = probes[k]
+    pcode = PROBES[pname][0]
+    if how == 'direct':
+        code = flagop + pcode
+        what = 'does-not-%s-the-integer-flag' % ('set' if opname == 'OP_SET_FLAG' else 'unset')
+    elif how == 'persist':
+        code = flagop + wrap(arg, _IDLE) + pcode
+        what = 'undone-by-a-following-%s' % arg
+    elif how == 'inherit':
+        code = flagop + wrap(arg, pcode)
+        what = 'not-seen-inside-a-following-%s' % arg
+    else:
+        raise ValueError('placement')
+    # SET is observed against a configuration that turned the flag off, UNSET against the default (on)
+    r = run_probe(pname, word, 'off' if opname == 'OP_SET_FLAG' else 'default', code_override=code)
+    if r['err'] is not None:
+        fails.append(('flag-instruction/%s-raises-for-an-integer-flag' % opname[3:], 'flag %d in %r (%s %s): %s' % (k, word, how, arg, r['err'])))
+    else:
+        on = (r['sig'] >= 1) if k == 10 else (FLAGKEYS[k] in r['cache'])
+        if on != (opname == 'OP_SET_FLAG'):
+            fails.append(('flag-instruction/%s-%s' % (opname[3:], what), 'flag %d in %r: observed %s' % (k, word, 'on' if on else 'off')))
+    if how == 'direct':
+        # other flags untouched: a neighbour probe keeps its behaviour
+        other = (k + 1) % 10
+        r = run_probe(probes[other], word, 'off', extra_code=flagop)
+        if r['err'] is None and FLAGKEYS[other] in r['cache']:
+            fails.append(('flag-instruction/%s-changes-another-flag' % opname[3:], 'op on %d re-enabled %d' % (k, other)))
     return fails
 
 
@@ -385,9 +400,12 @@ def check_case(case):
         return judge(case['probe'], word, case['config'])
     if k == 'flagop':
         word = tuple(case['context'])
-        if any(w not in CTX for w in word) or case['op'] not in ('OP_SET_FLAG', 'OP_UNSET_FLAG') or not 0 <= case['flag'] <= 9:
+        if any(w not in CTX for w in word) or case['op'] not in ('OP_SET_FLAG', 'OP_UNSET_FLAG') or not 0 <= case['flag'] <= 10:
             raise ValueError('domain')
-        return judge_flagop(case['op'], case['flag'], word)
+        pl = tuple(case.get('placement') or ('direct', None))
+        if pl not in PLACEMENTS:
+            raise ValueError('placement')
+        return judge_flagop(case['op'], case['flag'], word, pl)
     raise ValueError(k)
 
 
@@ -445,13 +463,15 @@ def task_flagops(ctx):
         if i % ctx.nshards != ctx.shard:
             continue
         for opname in ('OP_SET_FLAG', 'OP_UNSET_FLAG'):
-            for k in range(10) if len(word) <= 1 else (1, 9):
-                fails = judge_flagop(opname, k, word)
-                ctx.case(('flagop', word, opname, k), True)
-                n += 1
-                for s, d in fails:
-                    ctx.fail('flagop', s, {'check': 'flagop', 'context': list(word), 'op': opname, 'flag': k}, d)
-    ctx.exhaustive['flag instruction x integer flag x contexts of depth <= 2'] = n
+            for k in range(11) if len(word) <= 1 else (1, 9, 10):
+                for pl in PLACEMENTS:
+                    fails = judge_flagop(opname, k, word, pl)
+                    ctx.case(('flagop', word, opname, k, pl), True)
+                    ctx.count('flagop-placement:' + pl[0])
+                    n += 1
+                    for s, d in fails:
+                        ctx.fail('flagop', s, {'check': 'flagop', 'context': list(word), 'op': opname, 'flag': k, 'placement': list(pl)}, d)
+    ctx.exhaustive['flag instruction x integer flag 0-10 x contexts of depth <= 2 x placement (direct, 5 persist, 11 inherit)'] = n
     ctx.sample({'check': 'flagop', 'context': ['IF'], 'op': 'OP_UNSET_FLAG', 'flag': 1})
 
 
